@@ -164,3 +164,15 @@ COQ_PROPS = (list(COQ_PROPS) if isinstance(COQ_PROPS, (list, tuple)) else [COQ_P
 THEOREMS = list(THEOREMS) + ['SRC_key_regex_filter', 'SRC_make_key_regex_filter']
 TABLES = sorted(set(list(globals().get('TABLES') or []) + ['t_src_filter'])) if globals().get('TABLES') else None
 TRUSTED_BASE = list(TRUSTED_BASE) + ['tools/tables/py2coq.py + t_src_filter.py: translator of make_key_regex_filter into Gallina (re.compile / search are parameters)']
+
+# CLI composition (integrator): "extra exclude/include patterns compose as exclude-unless-included" is reachable only through
+# the dcmstack command line (-e / -i on top of the defaults); the C19 `state` part runs real invocation sequences with
+# -e / -i / --embed-meta / --dump-meta and compares every written extension with the API result built from the PRISTINE
+# default lists plus the options, and the recorded filter arguments with Cli.Model (cli_filter).  Re-used here unchanged.
+from props import c19 as _c19
+class CliCompose(_c19.State):
+    NAME = "state"
+PARTS = PARTS + [CliCompose]
+COQ_PROPS = COQ_PROPS + ['Props/C19.v']
+THEOREMS = THEOREMS + ['C19_filter', 'C19_args']
+TABLES = sorted(set(TABLES + _c19.TABLES)) if TABLES else None
